@@ -900,7 +900,7 @@ def evaluate(ctx, deep):
     selfcheck(ctx)
     nplace = 6 if deep else 4
     cases = []
-    for _ in range(3 if deep else 2):            # independent passes over every class/option with fresh random data
+    for _ in range(2):                           # independent passes over every class/option with fresh random data
         cases.extend(object_cases(rng, deep))
     for spec, data in cases:
         pdata = prepared_data(spec, data)
